@@ -47,6 +47,15 @@ EXPLANATION = (
     '(np.ascontiguousarray): PyTables writes a caller\'s non-contiguous view whose byte strides sum to zero as raw '
     'memory; (D2) the row view the constructor builds for loaded rows of equal length keeps the element dimensions '
     '(rule family C05.D7 run for ra.load). '
+    'Added in the fifth wave (survivors of generic mutants): (D3.accepts) for every class of well-formed input '
+    '(a finite abstract domain: how the options are passed, 1-3 rows, 1-D / n-D rows, rank r of n) the paths of '
+    'ra.load, load_as_concatenated, shared_array_like_trj and the striped loaders that remain after removing the '
+    'branches the class makes false reach a normal exit and read no tracked local before it is bound - a '
+    'validation guard must not reject rows / files that agree; (D3.parallel.options) the option list zipped for '
+    'the workers is the caller\'s list / **kwargs per file / empty dicts according to how the options were passed, '
+    'and lengths=None is sounded; (D3.striped.source / .payload) a rank that owns rows returns ra.load of its stripe '
+    'of the keys, the root broadcasts what it read; (D3.guarded-access) an attribute / key is used in the branch '
+    'where its hasattr / membership guard holds. '
     'Bit-identity of values, PyTables node order and scheduling are trusted/'
     'not decided.')
 
@@ -2382,6 +2391,911 @@ def d_fresh_reads(ck):
     ck.floor(rule, n, 5, 'loaders / sounders that read a file')
 
 
+# ---------------------------------------------------------------------------
+# Fifth wave: the loaders ACCEPT every well-formed input.
+#
+# The clauses above say what a loader returns; they do not say that it returns
+# at all.  A validation guard with the wrong polarity (`raise` when the rows DO
+# agree), an option normalisation whose branches are swapped, a fall-back block
+# taken by a rank that owns rows: each leaves every located construct intact.
+# Necessary condition decided here: for every CLASS of well-formed input (a
+# finite abstract domain: which of the option arguments are given, 1..3 rows,
+# one- or multi-dimensional rows, the rank / world size) the paths that remain
+# after deleting the branches whose tests are FALSE for the class reach a
+# normal exit, read no tracked local before it is bound, and carry the value
+# the class requires (the caller's option list, the rows of ra.load ...).
+# Tests the class does not decide keep both branches, so an unrecognised
+# spelling can only lose a verdict, never produce one.
+
+def kleene(test, atom):
+    """Three-valued value (True / False / None = unknown) of a boolean test;
+    `atom(node)` values the leaves."""
+    if isinstance(test, ast.UnaryOp) and isinstance(test.op, ast.Not):
+        v = kleene(test.operand, atom)
+        return None if v is None else (not v)
+    if isinstance(test, ast.BoolOp):
+        vals = [kleene(v, atom) for v in test.values]
+        if isinstance(test.op, ast.And):
+            if any(v is False for v in vals):
+                return False
+            return True if all(v is True for v in vals) else None
+        if any(v is True for v in vals):
+            return True
+        return False if all(v is False for v in vals) else None
+    if isinstance(test, ast.Constant):
+        return bool(test.value) if isinstance(test.value, (bool, int, str, type(None))) else None
+    return atom(test)
+
+
+class ClassWalk:
+    """The part of a function's CFG an input class can execute.  `atom(node,
+    state)` values the leaves of branch tests for the class (None = not
+    decided); `state` maps each tracked local to the ORIGIN of its current
+    value: 'PARAM', 'UNBOUND' or the defining statement (a rebinding that only
+    re-reads the name itself - `x = x`, `x = x._data` - keeps the origin).
+    Pruned: the arm of an `if` whose test has the other value; everything
+    behind an `assert` whose test is False; the zero-trip exit of a `for`
+    whose iterable `nonempty(iter, state)` says holds an element (the exit is
+    taken only from the back edge)."""
+
+    def __init__(self, fi, atom, tracked=(), nonempty=None):
+        self.fi, self.atom, self.tracked = fi, atom, tuple(tracked)
+        self.nonempty = nonempty or (lambda it, st: False)
+        self.states = {}            # node -> [state dict] (on arrival)
+        self.decided = []           # (If / Assert statement, value)
+        self.unbound = []           # (statement, name)
+        self.normal_exit = False
+        self._run()
+
+    def _inside(self, n, loop):
+        node = n.owner if isinstance(n, Assume) else n
+        if not isinstance(node, ast.AST):
+            return False
+        par = self.fi.mod.parent
+        child, p = node, par.get(node)
+        while p is not None and not isinstance(p, (ast.FunctionDef, ast.AsyncFunctionDef, ast.ClassDef, ast.Module)):
+            if p is loop:
+                return any(child is x for x in loop.body)
+            child, p = p, par.get(p)
+        return False
+
+    def reads(self, n, std):
+        """identifiers DEFINITELY read when control is at statement n, for this
+        class: not the arm of a conditional expression the class does not
+        select (or cannot decide), not the right operands of and/or, not the
+        element expression of a comprehension (zero iterations)"""
+        from ..cfg import header_exprs
+        out = set()
+        at = lambda a: self.atom(a, std)        # noqa: E731
+
+        def walk(e, bound, sure):
+            if isinstance(e, ast.IfExp):
+                walk(e.test, bound, sure)
+                v = kleene(e.test, at)
+                if v is not False:
+                    walk(e.body, bound, sure and v is True)
+                if v is not True:
+                    walk(e.orelse, bound, sure and v is False)
+                return
+            if isinstance(e, ast.BoolOp):
+                for i, x in enumerate(e.values):
+                    walk(x, bound, sure and i == 0)
+                return
+            if isinstance(e, ast.Lambda):
+                return
+            if isinstance(e, _COMPS):
+                walk(e.generators[0].iter, bound, sure)
+                inner = set(bound)
+                for g in e.generators:
+                    inner.update(target_names(g.target))
+                for i, g in enumerate(e.generators):
+                    if i:
+                        walk(g.iter, inner, False)
+                    for c in g.ifs:
+                        walk(c, inner, False)
+                for x in ([e.key, e.value] if isinstance(e, ast.DictComp) else [e.elt]):
+                    walk(x, inner, False)
+                return
+            if isinstance(e, ast.Name):
+                if sure and isinstance(e.ctx, (ast.Load, ast.Del)) and e.id not in bound:
+                    out.add(e.id)
+                return
+            for c in ast.iter_child_nodes(e):
+                walk(c, bound, sure)
+        for e in header_exprs(n):
+            walk(e, frozenset(), True)
+        if isinstance(n, ast.AugAssign) and isinstance(n.target, ast.Name):
+            out.add(n.target.id)
+        return out
+
+    def _origin(self, n, x, old):
+        if isinstance(n, ast.Assign) and len(n.targets) == 1 and isinstance(n.targets[0], ast.Name) and old != 'UNBOUND':
+            v = n.value
+            while isinstance(v, ast.Attribute):
+                v = v.value
+            if isinstance(v, ast.Name) and v.id == x:
+                return old
+        return n
+
+    def _run(self):
+        from ..cfg import ENTRY, EXIT, stmt_defs
+        fi = self.fi
+        cfg = fi.cfg
+        ps = set(params(fi.fn))
+        st0 = tuple('PARAM' if x in ps else 'UNBOUND' for x in self.tracked)
+        seen = set()
+        work = [(ENTRY, st0, False)]
+        while work:
+            n, st, back = work.pop()
+            key = (n if isinstance(n, str) else id(n), tuple(o if isinstance(o, str) else id(o) for o in st), back)
+            if key in seen:
+                continue
+            seen.add(key)
+            std = dict(zip(self.tracked, st))
+            lst = self.states.setdefault(n, [])
+            if std not in lst:
+                lst.append(std)
+            succs = list(cfg.succ.get(n, []))
+            out = st
+            if isinstance(n, (ast.stmt, ast.ExceptHandler)):
+                at = lambda a: self.atom(a, std)        # noqa: E731
+                if isinstance(n, ast.If):
+                    v = kleene(n.test, at)
+                    if v is not None:
+                        if (n, v) not in self.decided:
+                            self.decided.append((n, v))
+                        succs = [m for m in succs if not (isinstance(m, Assume) and m.owner is n and m.polarity != v)]
+                elif isinstance(n, ast.Assert):
+                    if kleene(n.test, at) is False:
+                        if (n, False) not in self.decided:
+                            self.decided.append((n, False))
+                        succs = []
+                elif isinstance(n, ast.For) and not back and self.nonempty(n.iter, std):
+                    succs = [m for m in succs if self._inside(m, n)]
+                defs = stmt_defs(n)
+                if defs:
+                    out = tuple(self._origin(n, x, o) if x in defs else o for x, o in zip(self.tracked, st))
+            for m in succs:
+                if m == EXIT and not isinstance(n, ast.Raise):
+                    self.normal_exit = True
+                work.append((m, out, isinstance(m, ast.For) and self._inside(n, m)))
+
+        # a tracked local read before it is bound: EVERY state that arrives at the statement has it unbound and
+        # the read is definite (the paths kept over-approximate those the class can take)
+        for n, lst in self.states.items():
+            if not isinstance(n, ast.stmt):
+                continue
+            for x in self.tracked:
+                if lst and all(std[x] == 'UNBOUND' for std in lst) and all(x in self.reads(n, std) for std in lst):
+                    self.unbound.append((n, x))
+
+    def visited(self, node):
+        return node in self.states
+
+    def origins(self, node, name):
+        """origins of tracked `name` on arrival at `node`, over all states"""
+        out = []
+        for std in self.states.get(node, []):
+            if std[name] not in out:
+                out.append(std[name])
+        return out
+
+    def blockers(self):
+        """the decided tests whose chosen arm raises at once / the failed
+        assertions: what stands between this class and a normal exit"""
+        out = []
+        for n, v in self.decided:
+            if isinstance(n, ast.Assert):
+                out.append((n, v))
+            else:
+                arm = n.body if v else n.orelse
+                if any(isinstance(x, ast.Raise) for x in arm):
+                    out.append((n, v))
+        return out
+
+
+def _unpack_expand(fi, e):
+    """copy of e with every name bound ONCE by `a, b = V` (V not a tuple
+    display) replaced by V[k]; names of V must be unchanged at the use."""
+    def path(t, name, base):
+        if isinstance(t, ast.Name):
+            return base if t.id == name else None
+        if isinstance(t, (ast.Tuple, ast.List)) and not any(isinstance(x, ast.Starred) for x in t.elts):
+            for k, x in enumerate(t.elts):
+                r = path(x, name, ast.Subscript(value=base, slice=ast.Constant(value=k), ctx=ast.Load()))
+                if r is not None:
+                    return r
+        return None
+
+    class R(ast.NodeTransformer):
+        def visit_Name(self, node):
+            if not isinstance(node.ctx, ast.Load):
+                return node
+            on = node if node in fi.stmt_of else orig(fi, node)
+            if on is None:
+                return node
+            try:
+                defs = fi.defs_of_use(on)
+            except Exception:
+                return node
+            if len(defs) != 1:
+                return node
+            site = next(iter(defs))
+            if not (isinstance(site, ast.Assign) and len(site.targets) == 1 and isinstance(site.targets[0], (ast.Tuple, ast.List))) or \
+                    isinstance(site.value, (ast.Tuple, ast.List)):
+                return node
+            use = fi.stmt(on)
+            if any(fi.rd.defs_at(site, m) != fi.rd.defs_at(use, m) for m in names_loaded(site.value)):
+                return node
+            r = path(site.targets[0], node.id, copy.deepcopy(site.value))
+            return ast.copy_location(r, node) if r is not None else node
+    return ast.fix_missing_locations(R().visit(copy.deepcopy(e)))
+
+
+def _agreement(fi, cmp_node):
+    """Is the comparison `A == B` / `A != B` one between the SAME quantity of
+    the first element of a sequence and of the element the enclosing loop /
+    comprehension is at (B with the loop variable replaced by S[0] is A)?
+    Then A == B holds for element 0 by reflexivity, and for every element of
+    a well-formed input (rows / files that agree in that quantity)."""
+    if not (isinstance(cmp_node, ast.Compare) and len(cmp_node.ops) == 1 and isinstance(cmp_node.ops[0], (ast.Eq, ast.NotEq))):
+        return False
+    par = fi.mod.parent
+    ctxs = []
+    child, p = cmp_node, par.get(cmp_node)
+    while p is not None and not isinstance(p, (ast.FunctionDef, ast.AsyncFunctionDef, ast.Lambda, ast.ClassDef)):
+        if isinstance(p, _COMPS) and not isinstance(p, ast.DictComp) and (child is p.elt or any(child is g for g in p.generators)):
+            for g in p.generators:
+                ctxs.append((g.target, g.iter))
+        elif isinstance(p, ast.comprehension):
+            pass
+        elif isinstance(p, ast.For) and any(child is x for x in p.body):
+            ctxs.append((p.target, p.iter))
+        child, p = p, par.get(p)
+    A, B = cmp_node.left, cmp_node.comparators[0]
+    for T, S in ctxs:
+        if isinstance(S, ast.Call) and call_name(S) == 'enumerate' and len(S.args) == 1 and not S.keywords and \
+                isinstance(T, (ast.Tuple, ast.List)) and len(T.elts) == 2:
+            T, S = T.elts[1], S.args[0]
+        paths = {}
+
+        def bind(t, base):
+            if isinstance(t, ast.Name):
+                paths[t.id] = base
+                return True
+            if isinstance(t, (ast.Tuple, ast.List)) and not any(isinstance(x, ast.Starred) for x in t.elts):
+                return all(bind(x, ast.Subscript(value=base, slice=ast.Constant(value=k), ctx=ast.Load())) for k, x in enumerate(t.elts))
+            return False
+        if not bind(T, ast.Subscript(value=copy.deepcopy(S), slice=ast.Constant(value=0), ctx=ast.Load())):
+            continue
+        for a, b in ((A, B), (B, A)):
+            if (names_loaded(a) & set(paths)) or not (names_loaded(b) & set(paths)):
+                continue
+            b2 = b
+            for nm, pth in paths.items():
+                b2 = _subst_name(b2, nm, pth)
+            ast.fix_missing_locations(b2)
+            try:
+                ta = u(X(fi, _unpack_expand(fi, a), pure=False))
+                tb = u(X(fi, _unpack_expand(fi, b2), pure=False))
+            except Exception:
+                continue
+            if ta == tb:
+                return True
+    return False
+
+
+def _quantifier_value(fi, call, at, nonempty):
+    """all(<elt> for t in S) / any(...) with the element test valued by `at`"""
+    if not (isinstance(call, ast.Call) and isinstance(call.func, ast.Name) and call.func.id in ('all', 'any') and
+            len(call.args) == 1 and not call.keywords):
+        return None
+    sc = single_comp(call.args[0])
+    if sc is None or sc[3]:
+        return None
+    v = kleene(sc[0], at)
+    if v is None:
+        return None
+    if (call.func.id == 'all') == v:
+        return v                   # all(True ...) / any(False ...): also for an empty sequence
+    return v if nonempty(sc[2]) else None
+
+
+def _holds_elements(fi, it, roots, shape_dims=False, depth=6):
+    """The iterable holds at least one element for every well-formed input:
+    a sequence named in `roots` (the file list, the key list), a filterless
+    comprehension / enumerate / zip / list over such, range(len(such)); with
+    shape_dims also `range(1, len(<node>.shape))` (rows with element dimensions)."""
+    if depth <= 0 or it is None:
+        return False
+    rec = lambda x: _holds_elements(fi, x, roots, shape_dims, depth - 1)        # noqa: E731
+    if isinstance(it, ast.Name):
+        if it.id in roots:
+            return True
+        v = _temp(fi, it, need_pure=False)
+        return v is not None and rec(v)
+    if isinstance(it, (ast.ListComp, ast.GeneratorExp)):
+        return len(it.generators) == 1 and not it.generators[0].ifs and rec(it.generators[0].iter)
+    if isinstance(it, ast.Call) and not it.keywords and not any(isinstance(a, ast.Starred) for a in it.args):
+        cn = call_name(it) or ''
+        if cn in ('enumerate', 'list', 'tuple', 'sorted', 'reversed') and len(it.args) == 1:
+            return rec(it.args[0])
+        if cn == 'zip' and it.args:
+            return all(rec(a) for a in it.args)
+        if cn == 'range' and len(it.args) == 1:
+            a = it.args[0]
+            return isinstance(a, ast.Call) and call_name(a) == 'len' and len(a.args) == 1 and rec(a.args[0])
+        if cn == 'range' and len(it.args) == 2 and shape_dims and const_value(it.args[0]) == 1 and \
+                isinstance(it.args[1], ast.Call) and call_name(it.args[1]) == 'len' and len(it.args[1].args) == 1:
+            try:
+                q = X(fi, it.args[1].args[0], pure=False)
+            except Exception:
+                return False
+            if isinstance(q, ast.Subscript) and isinstance(q.value, ast.ListComp):
+                q = q.value.elt
+            return isinstance(q, ast.Attribute) and q.attr == 'shape'
+    return False
+
+
+def _cmp_ints(op, a, b):
+    import operator as op_
+    f = {ast.Eq: op_.eq, ast.NotEq: op_.ne, ast.Lt: op_.lt, ast.LtE: op_.le, ast.Gt: op_.gt, ast.GtE: op_.ge}.get(op)
+    return None if f is None or a is None or b is None else f(a, b)
+
+
+def _report_accepts(ck, mod, fi, q, results, what):
+    """results: [(class description, ClassWalk)].  One verdict per function."""
+    rule = 'C15.D3.accepts'
+    failing = [(d, w) for d, w in results if not w.normal_exit]
+    if not failing:
+        ck.ok(rule, mod, fi.fn, '%s: %d classes of well-formed input' % (q, len(results)),
+              'every class (%s) keeps a path to a normal exit once the branches it makes false are removed' % what)
+    else:
+        by = {}
+        for d, w in failing:
+            bl = w.blockers()
+            site = bl[-1][0] if bl else fi.fn
+            by.setdefault(id(site), (site, bl[-1][1] if bl else None, []))[2].append(d)
+        for site, val, ds in by.values():
+            if isinstance(site, ast.If):
+                txt = '`%s` is %s for this input and the branch taken raises' % (u(site.test)[:100], val)
+            elif isinstance(site, ast.Assert):
+                txt = '`%s` fails for this input' % u(site)[:100]
+            else:
+                txt = 'every remaining path ends in a raise'
+            ck.bad(rule, mod, site, q, 'well-formed input rejected: %s' % (u(site.test)[:80] if isinstance(site, (ast.If, ast.Assert)) else q),
+                   '%s cannot return for well-formed input of class %s: %s.  Inside the quantifier of the property a loader must '
+                   'return the stored values, not raise' % (q, '; '.join(ds[:4]), txt))
+    seen = set()
+    for d, w in results:
+        for s, x in w.unbound:
+            if (id(s), x) in seen:
+                continue
+            seen.add((id(s), x))
+            ck.bad(rule + '.bound', mod, s, q, 'read of `%s` in: %s' % (x, u(s)[:80]),
+                   'for input of class %s the path to this statement binds `%s` nowhere (the branch that binds it is not taken): '
+                   'UnboundLocalError instead of the loaded data' % (d, x))
+    return not failing
+
+
+def d_accepts_load(ck, mod):
+    """ra.load: keys given as a list or defaulted (Ellipsis), 1..3 rows, rows
+    with or without element dimensions; rows agree in rank, trailing
+    dimensions and dtype; the file holds no old-style nodes."""
+    q = 'load'
+    fn = mod.func(q)
+    fi = finfo(mod, fn)
+    ps = params(fn)
+    if len(ps) < 2:
+        ck.missing('C15.D3.accepts', 'load(input_name, keys, ...) signature')
+        return
+    KEYS = ps[1]
+    handles = set()
+    for w in walk_local(fn):
+        if isinstance(w, ast.With):
+            for it in w.items:
+                if isinstance(it.optional_vars, ast.Name) and isinstance(it.context_expr, ast.Call) and tail(it.context_expr) == 'open_file':
+                    handles.add(it.optional_vars.id)
+
+    def listing(v):
+        sc = single_comp(v) if v is not None else None
+        return sc is not None and not sc[3] and isinstance(sc[2], ast.Call) and tail(sc[2]) == 'list_nodes'
+    results = []
+    for kind in ('list', 'ellipsis'):
+        for nrows in (1, 2, 3):
+            for multi in (False, True):
+                def nonempty(it, std=None, multi=multi):
+                    return _holds_elements(fi, it, {KEYS}, shape_dims=multi)
+
+                def ival(e, std, kind=kind, nrows=nrows):
+                    c = const_value(e)
+                    if isinstance(c, int) and not isinstance(c, bool):
+                        return c
+                    if isinstance(e, ast.Call) and call_name(e) == 'len' and len(e.args) == 1 and isinstance(e.args[0], ast.Name) and e.args[0].id == KEYS:
+                        o = std[KEYS]
+                        if o == 'PARAM':
+                            return nrows if kind == 'list' else None
+                        if isinstance(o, ast.Assign) and listing(fi.def_value(o, KEYS)):
+                            return nrows
+                    return None
+
+                def atom(node, std, kind=kind, nonempty=nonempty, ival=ival):
+                    at = lambda a: atom(a, std)        # noqa: E731
+                    if isinstance(node, ast.Compare) and len(node.ops) == 1:
+                        a, op, b = node.left, type(node.ops[0]), node.comparators[0]
+                        for x, y in ((a, b), (b, a)):
+                            if isinstance(x, ast.Name) and x.id == KEYS and op in (ast.Is, ast.IsNot) and std[KEYS] == 'PARAM':
+                                val = None
+                                if isinstance(y, ast.Constant) and y.value is None:
+                                    val = False
+                                elif is_ellipsis(y):
+                                    val = kind == 'ellipsis'
+                                if val is not None:
+                                    return val if op is ast.Is else (not val)
+                        v = _cmp_ints(op, ival(a, std), ival(b, std))
+                        if v is not None:
+                            return v
+                        if op in (ast.In, ast.NotIn) and const_value(a) in ('/lengths', '/array', 'lengths', 'array') and \
+                                isinstance(b, ast.Name) and b.id in handles:
+                            return op is ast.NotIn
+                        if op in (ast.Eq, ast.NotEq) and _agreement(fi, node):
+                            return op is ast.Eq
+                        return None
+                    if isinstance(node, ast.Call):
+                        return _quantifier_value(fi, node, at, nonempty)
+                    return None
+                w = ClassWalk(fi, atom, tracked=(KEYS,), nonempty=nonempty)
+                results.append(('keys=%s, %d row%s, %s rows' % ('[...]' if kind == 'list' else 'Ellipsis', nrows, '' if nrows == 1 else 's',
+                                                                'multi-dimensional' if multi else 'one-dimensional'), w))
+    _report_accepts(ck, mod, fi, q, results, 'keys given / defaulted, 1-3 rows, 1-D / n-D rows')
+
+
+def d_accepts_npy(ck):
+    """load_npy_as_striped: one or more files that agree in trailing
+    dimensions and element type."""
+    mod = ck.repo.mod(IO)
+    q = 'load_npy_as_striped'
+    fn = mod.func(q)
+    fi = finfo(mod, fn)
+    ps = params(fn)
+    if not ps:
+        ck.missing('C15.D3.accepts', '%s(filenames, ...) signature' % q)
+        return
+    FN = ps[0]
+
+    def nonempty(it, std=None):
+        return _holds_elements(fi, it, {FN})
+
+    def atom(node, std):
+        at = lambda a: atom(a, std)        # noqa: E731
+        if isinstance(node, ast.Compare) and len(node.ops) == 1 and isinstance(node.ops[0], (ast.Eq, ast.NotEq)) and _agreement(fi, node):
+            return isinstance(node.ops[0], ast.Eq)
+        if isinstance(node, ast.Call):
+            return _quantifier_value(fi, node, at, nonempty)
+        return None
+    w = ClassWalk(fi, atom, nonempty=nonempty)
+    _report_accepts(ck, mod, fi, q, [('one or more .npy files of one dtype and one trailing shape', w)], 'files that agree in dtype and trailing shape')
+
+
+def d_accepts_shared(ck, mod):
+    """shared_array_like_trj: the example trajectory's coordinates are
+    float32 (mdtraj stores xyz as float32, always)."""
+    q = 'shared_array_like_trj'
+    fn = mod.func(q)
+    fi = finfo(mod, fn)
+    ps = params(fn)
+    if len(ps) < 2:
+        return
+    EX = ps[1]
+
+    def atom(node, std):
+        if isinstance(node, ast.Compare) and len(node.ops) == 1 and isinstance(node.ops[0], (ast.Eq, ast.NotEq)):
+            sides = [u(X(fi, node.left)), u(X(fi, node.comparators[0]))]
+            f32 = {'np.float32', 'numpy.float32', "'float32'", "np.dtype('float32')", 'np.dtype(np.float32)'}
+            if '%s.xyz.dtype' % EX in sides and (set(sides) & f32):
+                return isinstance(node.ops[0], ast.Eq)
+        return None
+    w = ClassWalk(fi, atom)
+    _report_accepts(ck, mod, fi, q, [('an mdtraj trajectory (float32 coordinates)', w)], 'float32 coordinates')
+
+
+_REPEAT_FORMS = ['[_K] * len(_F)', 'len(_F) * [_K]', '[_K for _T in _F]', '[_K for _T in range(len(_F))]',
+                 '[dict(_K) for _T in _F]', '[_K.copy() for _T in _F]', '[dict(_K) for _T in range(len(_F))]',
+                 'list(itertools.repeat(_K, len(_F)))', 'list(repeat(_K, len(_F)))']
+
+
+def d_accepts_concat(ck, mod):
+    """load_as_concatenated: the per-file option list that reaches the
+    workers, by the way the caller supplied the options, and the lengths that
+    size the buffer.  Classes: options as **kwargs / as the `args` list (one
+    entry per file) / none; lengths given (one per file) / None."""
+    q = 'load_as_concatenated'
+    rule = 'C15.D3.parallel.options'
+    fn = mod.func(q)
+    fi = finfo(mod, fn)
+    ps = params(fn)
+    if len(ps) < 4 or fn.args.kwarg is None:
+        ck.missing(rule, 'load_as_concatenated(filenames, lengths, processes, args, **kwargs) signature')
+        return
+    FN, L, ARGS = ps[0], ps[1], ps[3]
+    KWP = fn.args.kwarg.arg
+    from ..cfg import stmt_defs
+    kw_rebound = any(KWP in stmt_defs(s) for s in fi.cfg.nodes if isinstance(s, ast.stmt))
+
+    def file_list(name_node, stmt):
+        """the name holds the caller's file list (possibly materialised)"""
+        if not (isinstance(name_node, ast.Name) and name_node.id == FN):
+            return False
+        for d in fi.rd.defs_at(stmt, FN):
+            if d == 'PARAM':
+                continue
+            v = fi.def_value(d, FN) if isinstance(d, ast.AST) else None
+            if not (isinstance(v, ast.Call) and call_name(v) in ('list', 'tuple') and len(v.args) == 1 and u(v.args[0]) == FN):
+                return False
+        return True
+
+    def len_of(e):
+        return e.args[0] if isinstance(e, ast.Call) and call_name(e) == 'len' and len(e.args) == 1 and not e.keywords else None
+
+    ma = [c for c in calls_in(fn) if isinstance(c.func, ast.Attribute) and c.func.attr in MAPS and c.args and
+          WORKER in names_loaded(resolve(fi, c.args[0]) if isinstance(c.args[0], ast.Name) else c.args[0])]
+    sa = [c for c in calls_in(fn) if tail(c) == 'shared_array_like_trj']
+    if len(ma) != 1 or len(sa) != 1:
+        ck.missing(rule, 'the pool map of %s and the call of shared_array_like_trj in %s' % (WORKER, q))
+        return
+    mstmt, sstmt = fi.stmt(ma[0]), fi.stmt(sa[0])
+    results = []
+    verdicts = {}        # (kind of finding, site id) -> (site, classes, text)
+    n_ok = 0
+    for opts in ('kwargs', 'args', 'none'):
+        for lens in ('None', 'given'):
+            def atom(node, std, opts=opts, lens=lens):
+                if isinstance(node, ast.Name):
+                    if node.id == KWP and not kw_rebound:
+                        return opts == 'kwargs'
+                    if node.id == ARGS and std[ARGS] == 'PARAM':
+                        return opts == 'args'
+                    return None
+                if isinstance(node, ast.Compare) and len(node.ops) == 1:
+                    a, op, b = node.left, type(node.ops[0]), node.comparators[0]
+                    for x, y in ((a, b), (b, a)):
+                        if isinstance(x, ast.Name) and isinstance(y, ast.Constant) and y.value is None and op in (ast.Is, ast.IsNot):
+                            val = None
+                            if x.id == L and std[L] == 'PARAM':
+                                val = lens == 'None'
+                            elif x.id == ARGS and std[ARGS] == 'PARAM':
+                                val = opts != 'args'           # classes 'kwargs' / 'none': args left at its default None
+                            if val is not None:
+                                return val if op is ast.Is else (not val)
+                    la, lb = len_of(a), len_of(b)
+                    if la is not None and lb is not None and op in (ast.Eq, ast.NotEq):
+                        st = fi.stmt(node)
+                        for x, y in ((la, lb), (lb, la)):
+                            if not file_list(y, st) or not isinstance(x, ast.Name):
+                                continue
+                            if (x.id == ARGS and std[ARGS] == 'PARAM' and opts == 'args') or (x.id == L and std[L] == 'PARAM' and lens == 'given'):
+                                return op is ast.Eq
+                return None
+            w = ClassWalk(fi, atom, tracked=(ARGS, L))
+            desc = 'options %s, lengths %s' % ({'kwargs': 'as **%s' % KWP, 'args': 'as the `%s` list' % ARGS, 'none': 'absent'}[opts], lens)
+            if not w.visited(mstmt):
+                w.normal_exit = False
+                results.append((desc, w))
+                continue
+            results.append((desc, w))
+            # which option list reaches the workers: all origins the class keeps are of the kind it requires (ok), none
+            # is (the true paths are among them: VIOLATION), or the walk could not tell the paths apart (incomplete)
+            kinds = []
+            for o in w.origins(mstmt, ARGS):
+                kind = None
+                if o == 'PARAM':
+                    kind = 'PARAM'
+                elif isinstance(o, ast.Assign):
+                    v = fi.def_value(o, ARGS)
+                    t = X(fi, v, stop=(KWP, FN)) if v is not None else None
+                    for f in _REPEAT_FORMS:
+                        b = match(f, t) if t is not None else None
+                        if b is not None and u(b['_F']) == FN:
+                            k = b['_K']
+                            if isinstance(k, ast.Name) and k.id == KWP and not kw_rebound:
+                                kind = 'kwargs'
+                            elif (isinstance(k, ast.Dict) and not k.keys) or (isinstance(k, ast.Call) and call_name(k) == 'dict' and not k.args and not k.keywords):
+                                kind = 'empty'
+                            break
+                kinds.append((o if isinstance(o, ast.AST) else mstmt, kind))
+            want = {'kwargs': ('kwargs',), 'args': ('PARAM',), 'none': ('kwargs', 'empty')}[opts]
+            if kinds and all(k in want for _, k in kinds):
+                n_ok += 1
+            elif kinds and all(k is not None and k not in want for _, k in kinds):
+                for site, k in kinds:
+                    got = {'PARAM': 'the `%s` argument as passed (None)' % ARGS, 'kwargs': '**%s repeated per file' % KWP, 'empty': 'an empty option dict per file'}[k]
+                    verdicts.setdefault(('bad', id(site)), (site, [], got))[1].append(desc)
+            else:
+                for site, k in kinds:
+                    if k is None or k not in want:
+                        verdicts.setdefault(('far', id(site)), (site, [], None))[1].append(desc)
+            if lens == 'None' and w.visited(sstmt):
+                lo = w.origins(sstmt, L)
+                if lo == ['PARAM']:
+                    verdicts.setdefault(('len', id(sstmt)), (sstmt, [], None))[1].append(desc)
+                elif 'PARAM' in lo:
+                    verdicts.setdefault(('lenfar', id(sstmt)), (sstmt, [], None))[1].append(desc)
+    accepted = _report_accepts(ck, mod, fi, q, results, 'options as **kwargs / per-file list / absent, lengths given / sounded')
+    for (k, _), (site, ds, got) in verdicts.items():
+        if k == 'far':
+            ck.missing(rule, 'which per-file option list `%s` (%s:%s) hands to the workers (classes: %s)'
+                       % (u(site)[:80], mod.rel, getattr(site, 'lineno', '?'), '; '.join(ds[:3])))
+        elif k == 'lenfar':
+            ck.missing(rule, 'whether the lengths that size the buffer at `%s` (%s:%s) are sounded when the caller passes lengths=None'
+                       % (u(site)[:60], mod.rel, getattr(site, 'lineno', '?')))
+        elif k == 'bad':
+            ck.bad(rule, mod, site, q, 'per-file options that reach the workers: %s' % u(site)[:80],
+                   'called with %s, the option list zipped with the files for the workers is %s.  The workers load file i with entry i of that '
+                   'list (md.load(filename, **load_kwargs)), and the lengths are sounded with its strides: the caller\'s stride / atom_indices / '
+                   'top are dropped (or never built), so the result is not the concatenation of the individually loaded (strided, '
+                   'atom-selected) trajectories' % ('; '.join(ds[:3]), got))
+        else:
+            ck.bad(rule, mod, site, q, 'lengths that size the buffer when none are given',
+                   'called with lengths=None (%s) the path to `%s` never sounds the files: the buffer is sized from None' % ('; '.join(ds[:3]), u(site)[:80]))
+    if not any(k in ('bad', 'len') for k, _ in verdicts) and n_ok:
+        ck.ok(rule, mod, mstmt, 'per-file options that reach the workers',
+              '**%s -> one copy per file, `%s` list -> as passed, neither -> empty dicts; lengths=None -> sounded (%d classes)' % (KWP, ARGS, n_ok))
+    if accepted and not any(k in ('bad', 'len') for k, _ in verdicts):
+        ck.floor(rule, n_ok, 3, 'option classes whose option list was recognised')
+
+
+def d_accepts_h5(ck):
+    """load_h5_as_striped on rank r of n (r, n in {(0,1), (0,2), (1,2)}) for a
+    file of 1..3 rows, classes where the rank owns at least one row: the key
+    and shape lists are bound when read, the root broadcasts what it read, the
+    rows returned are those of ra.load for this rank's stripe of the keys."""
+    mod = ck.repo.mod(IO)
+    q = 'load_h5_as_striped'
+    fn = mod.func(q)
+    fi = finfo(mod, fn)
+    ps = params(fn)
+    rule = 'C15.D3.striped'
+    if len(ps) < 1:
+        ck.missing(rule, '%s(filename, stride) signature' % q)
+        return
+    FILE = ps[0]
+    # roles: the key list (names of the file's nodes), the shape list (one per key)
+    KEYS, SHAPES = set(), set()
+    assigns = [s for s in walk_local(fn) if isinstance(s, ast.Assign) and len(s.targets) == 1 and isinstance(s.targets[0], ast.Name)]
+    for s in assigns:
+        sc = single_comp(s.value)
+        if sc is not None and not sc[3] and isinstance(sc[2], ast.Call) and tail(sc[2]) == 'list_nodes':
+            KEYS.add(s.targets[0].id)
+    for s in assigns:
+        sc = single_comp(s.value)
+        if sc is not None and not sc[3] and isinstance(sc[2], ast.Name) and sc[2].id in KEYS and isinstance(sc[0], ast.Attribute) and sc[0].attr == 'shape':
+            SHAPES.add(s.targets[0].id)
+
+    def is_bcast(v):
+        return isinstance(v, ast.Call) and tail(v) == 'bcast' and v.args and not isinstance(v.args[0], ast.Starred)
+    for role in (KEYS, SHAPES):
+        for nm in list(role):
+            for s in assigns:
+                if s.targets[0].id != nm:
+                    continue
+                sc = single_comp(s.value)
+                if sc is not None:
+                    continue
+                if not (is_bcast(s.value) and names_loaded(s.value.args[0]) <= {nm, 'mpi'}):
+                    role.discard(nm)            # some other value is stored under the name: not the role
+    rets = [r for r in returns_of(fn) if isinstance(r.value, ast.Tuple) and len(r.value.elts) == 2 and isinstance(r.value.elts[1], ast.Name)]
+    if not KEYS or not rets or len({r.value.elts[1].id for r in rets}) != 1:
+        ck.missing(rule, 'the key list read from the file and the `return <lengths>, <data>` of %s' % q)
+        return
+    LD = rets[0].value.elts[1].id
+    tracked = tuple(sorted(KEYS | SHAPES)) + (LD,)
+    results = []
+    found = {}
+    n_src = 0
+    for r_, n_ in ((0, 1), (0, 2), (1, 2)):
+        for nrows in (1, 2, 3):
+            if len(range(r_, nrows, n_)) < 1:
+                continue            # a rank that owns no row: C14
+
+            def ival(e, depth=6, r_=r_, n_=n_):
+                c = const_value(e)
+                if isinstance(c, int) and not isinstance(c, bool):
+                    return c
+                if isinstance(e, ast.Call) and not e.args and not e.keywords and (call_name(e) or '') in ('mpi.rank', 'rank'):
+                    return r_
+                if isinstance(e, ast.Call) and not e.args and not e.keywords and (call_name(e) or '') in ('mpi.size', 'size'):
+                    return n_
+                if isinstance(e, ast.Call) and call_name(e) == 'len' and len(e.args) == 1 and not e.keywords:
+                    return cnt(e.args[0], depth)
+                return None
+
+            def cnt(e, depth=6, nrows=nrows):
+                if depth <= 0:
+                    return None
+                if isinstance(e, ast.Name):
+                    if e.id in KEYS or e.id in SHAPES:
+                        return nrows
+                    v = _temp(fi, e, need_pure=False)
+                    return cnt(v, depth - 1) if v is not None else None
+                if isinstance(e, (ast.ListComp, ast.GeneratorExp)) and len(e.generators) == 1 and not e.generators[0].ifs:
+                    return cnt(e.generators[0].iter, depth - 1)
+                if isinstance(e, ast.Subscript) and isinstance(e.slice, ast.Slice) and e.slice.upper is None:
+                    base = cnt(e.value, depth - 1)
+                    lo = 0 if e.slice.lower is None else ival(e.slice.lower, depth - 1)
+                    stp = 1 if e.slice.step is None else ival(e.slice.step, depth - 1)
+                    if base is None or lo is None or stp is None or stp < 1 or lo < 0:
+                        return None
+                    return len(range(lo, base, stp))
+                return None
+
+            def atom(node, std, ival=ival, cnt=cnt):
+                if isinstance(node, ast.Compare) and len(node.ops) == 1:
+                    a, op, b = node.left, type(node.ops[0]), node.comparators[0]
+                    v = _cmp_ints(op, ival(a), ival(b))
+                    if v is not None:
+                        return v
+                    if op in (ast.In, ast.NotIn) and const_value(a) in ('array', 'lengths') and isinstance(b, ast.Name) and b.id in KEYS:
+                        return op is ast.NotIn
+                    return None
+                if isinstance(node, ast.Call) and call_name(node) == 'hasattr' and len(node.args) == 2 and isinstance(node.args[0], ast.Name) and \
+                        node.args[0].id == LD and const_value(node.args[1]) == '_data':
+                    o = std[LD]
+                    v = o.value if isinstance(o, ast.Assign) else None
+                    if isinstance(v, ast.Call) and tail(v) == 'load' and call_name(v) in ('ra.load', 'load', 'enspara.ra.load'):
+                        k = kwarg(v, 'keys') or (v.args[1] if len(v.args) > 1 else None)
+                        c = cnt(k) if k is not None else None
+                        return None if c is None or c < 1 else c != 1      # ra.load: a plain array iff exactly one key (C15.D3.exits)
+                    if isinstance(v, ast.Call) and (call_name(v) or '') in ('np.zeros', 'np.empty', 'np.ones', 'np.full'):
+                        return False
+                return None
+            w = ClassWalk(fi, atom, tracked=tracked)
+            desc = 'rank %d of %d, %d row%s' % (r_, n_, nrows, '' if nrows == 1 else 's')
+            results.append((desc, w))
+            at0 = lambda a: atom(a, None)        # noqa: E731
+            # the root broadcasts what it read
+            for s in [x for x in w.states if isinstance(x, ast.stmt)]:
+                from ..cfg import header_exprs
+                for h in header_exprs(s):
+                    for c in walk_expr(h):
+                        if not is_bcast(c):
+                            continue
+                        root = kwarg(c, 'root') or (c.args[1] if len(c.args) > 1 else None)
+                        if (ival(root) if root is not None else 0) != r_:
+                            continue
+                        p = c.args[0]
+                        while isinstance(p, ast.IfExp):
+                            v = kleene(p.test, at0)
+                            if v is None:
+                                break
+                            p = p.body if v else p.orelse
+                        if isinstance(p, ast.Constant) and p.value is None:
+                            found.setdefault(('payload', id(c)), (c, [], None))[1].append(desc)
+                        elif not isinstance(p, ast.IfExp):
+                            found.setdefault(('payload-ok', id(c)), (c, [], None))[1].append(desc)
+            # the data returned: the origins the class keeps at the returns are all ra.load (ok), all the empty block
+            # (VIOLATION: the true paths are among them), or the walk cannot tell (incomplete)
+            kinds = []
+            for r in rets:
+                for o in w.origins(r, LD):
+                    v = o.value if isinstance(o, ast.Assign) else None
+                    kind = 'far'
+                    if isinstance(v, ast.Call) and tail(v) == 'load' and call_name(v) in ('ra.load', 'load', 'enspara.ra.load'):
+                        kind = 'ok'
+                    elif isinstance(v, ast.Call) and (call_name(v) or '') in ('np.zeros', 'np.empty') and 'shape' in callargs(v):
+                        sh = X(fi, callargs(v)['shape'], pure=False)
+                        lead = sh.left if isinstance(sh, ast.BinOp) and isinstance(sh.op, ast.Add) else sh
+                        if isinstance(lead, ast.Tuple) and lead.elts and const_value(lead.elts[0]) == 0:
+                            kind = 'bad'
+                    kinds.append((o if isinstance(o, ast.AST) else r, kind))
+            if kinds and all(k == 'bad' for _, k in kinds):
+                for site, _k in kinds:
+                    found.setdefault(('src-bad', id(site)), (site, [], None))[1].append(desc)
+            else:
+                for site, k in kinds:
+                    found.setdefault(('src-ok' if k == 'ok' else 'src-far', id(site)), (site, [], None))[1].append(desc)
+    accepted = _report_accepts(ck, mod, fi, q, results, 'rank 0 of 1, ranks 0 and 1 of 2; 1-3 rows; ranks that own a row')
+    for (k, _), (site, ds, _x) in found.items():
+        if k == 'payload':
+            ck.bad(rule + '.payload', mod, site, q, 'payload of the broadcast on its root: %s' % u(site)[:80],
+                   'on the root (%s) the conditional payload of `%s` selects None: every rank receives None instead of the list the root read from the file'
+                   % (ds[0], u(site)[:100]))
+        elif k == 'payload-ok':
+            ck.ok(rule + '.payload', mod, site, u(site)[:100], 'on its root the broadcast sends the value the root read')
+        elif k == 'src-ok':
+            n_src += 1
+            v = site.value
+            k_ = kwarg(v, 'keys') or (v.args[1] if len(v.args) > 1 else None)
+            f_ = v.args[0] if v.args and not isinstance(v.args[0], ast.Starred) else kwarg(v, 'input_name')
+            forms = ['%s[mpi.rank()::mpi.size()]' % K for K in sorted(KEYS)]
+            vk = classify(X(fi, k_), forms, scope=KEYS | {'mpi'}) if k_ is not None else ('far', 1, None)
+            ck.decide(vk, rule + '.source', mod, site, q, 'keys=%s' % (T(fi, k_)[:80] if k_ is not None else '?'),
+                      'a rank that owns rows returns ra.load of its stripe of the keys (rows rank, rank+size, ...)',
+                      'the rows a rank loads must be <keys>[mpi.rank()::mpi.size()]: the stripe the global lengths are cut by')
+            ck.check(f_ is not None and T(fi, f_) == FILE, rule + '.source', mod, site, q, 'file read by %s' % u(v)[:60],
+                     'the rows are read from the file the keys were listed from', 'ra.load must read `%s`, the file whose keys were listed' % FILE)
+        elif k == 'src-bad':
+            ck.bad(rule + '.source', mod, site, q, 'data returned by a rank that owns rows',
+                   'for %s the value returned as data is the empty block `%s`, not the rows of ra.load: the rank owns rows '
+                   '(its stripe of the keys is not empty) but returns none of them, next to global lengths that count them' % ('; '.join(ds[:3]), u(site)[:80]))
+        elif k == 'src-far':
+            ck.missing(rule + '.source', 'where the data returned by %s come from for %s: `%s`' % (q, '; '.join(ds[:2]), u(site)[:80]))
+    if accepted and not any(k == 'src-bad' for k, _ in found):
+        ck.floor(rule + '.source', n_src, 1, 'ra.load calls that supply the returned rows')
+
+
+def d_guarded_access(ck):
+    """A guard states when an access is defined; taken with the wrong polarity
+    the access fails on EVERY execution of that branch: `x.a` where the
+    dominating branch condition says `not hasattr(x, 'a')` (AttributeError),
+    `d[k]` / `del d[k]` of a dict where it says `k not in d` (KeyError).
+    Decided per access from the dominating branch conditions (CFG), for the
+    same value of x (no definition / mutation in between)."""
+    from ..cfg import header_exprs
+    rule = 'C15.D3.guarded-access'
+    todo = [(RA, 'save'), (RA, 'load'), (LO, 'load_as_concatenated'), (LO, 'shared_array_like_trj'), (LO, WORKER), (LO, 'sound_trajectory'),
+            (IO, 'load_h5_as_striped'), (IO, 'load_npy_as_striped')]
+    n = 0
+    for rel, q in todo:
+        mod = ck.repo.mod(rel)
+        fn = mod.functions.get(q)
+        if fn is None:
+            continue
+        fi = finfo(mod, fn)
+        stmts = [s for s in fi.cfg.nodes if isinstance(s, ast.stmt)]
+        for s in stmts:
+            facts = []
+            for a in fi.cfg.dom.get(s, ()):
+                if not isinstance(a, Assume):
+                    continue
+                for c in conjuncts(a.test, a.polarity) or []:
+                    if isinstance(c, tuple) and c[0] == 'expr':
+                        e, pol = c[1], c[2]
+                        if isinstance(e, ast.Call) and call_name(e) == 'hasattr' and len(e.args) == 2 and isinstance(e.args[0], ast.Name) and \
+                                isinstance(const_value(e.args[1]), str):
+                            facts.append(('attr', e.args[0].id, const_value(e.args[1]), pol, a.owner))
+                    elif isinstance(c, Cmp) and c.op in (ast.In, ast.NotIn) and isinstance(const_value(c.lhs), str) and isinstance(c.rhs, ast.Name):
+                        facts.append(('key', c.rhs.id, const_value(c.lhs), c.op is ast.In, a.owner))
+            if not facts:
+                continue
+
+            def same(x, owner):
+                if fi.rd.defs_at(owner, x) != fi.rd.defs_at(s, x):
+                    return False
+                for d in stmts:
+                    if d is s or d is owner:
+                        continue
+                    from ..cfg import stmt_defs
+                    if x in stmt_defs(d) and fi.cfg.reachable(owner, d, avoiding=[s]) and fi.cfg.reachable(d, s, avoiding=[owner]):
+                        return False
+                return True
+            for h in header_exprs(s):
+                for e in walk_expr(h):
+                    if isinstance(e, ast.Attribute) and isinstance(e.value, ast.Name) and isinstance(e.ctx, ast.Load):
+                        for kind, x, a_, pol, owner in facts:
+                            if kind == 'attr' and x == e.value.id and a_ == e.attr and same(x, owner):
+                                n += 1
+                                ck.check(pol, rule, mod, s, q, '%s.%s under `%shasattr(%s, %r)`' % (x, a_, '' if pol else 'not ', x, a_),
+                                         'the attribute is read where the guard says it exists',
+                                         'the attribute is read in the branch where hasattr(%s, %r) is FALSE: AttributeError on every execution of `%s`'
+                                         % (x, a_, u(s)[:80]))
+                    if isinstance(e, ast.Subscript) and isinstance(e.value, ast.Name) and isinstance(e.ctx, (ast.Load, ast.Del)) and \
+                            isinstance(const_value(e.slice), str):
+                        for kind, x, k_, pol, owner in facts:
+                            if kind != 'key' or x != e.value.id or k_ != const_value(e.slice) or not same(x, owner):
+                                continue
+                            vals = [fi.def_value(d, x) if isinstance(d, ast.AST) else None for d in fi.rd.defs_at(s, x)]
+                            is_dict = vals and all(isinstance(v, ast.Dict) or (isinstance(v, ast.Call) and call_name(v) in ('dict', 'OrderedDict')) for v in vals)
+                            muts = [m for m in fi._mutated_in_place(x) if m is not s and fi.cfg.reachable(owner, m, avoiding=[s]) and fi.cfg.reachable(m, s)]
+                            if not is_dict or muts:
+                                continue
+                            n += 1
+                            ck.check(pol, rule, mod, s, q, '%s[%r] under `%r %sin %s`' % (x, k_, k_, '' if pol else 'not ', x),
+                                     'the key is used where the guard says it is present',
+                                     'the key is used in the branch where %r is NOT in the dict `%s`: KeyError on every execution of `%s`' % (k_, x, u(s)[:80]))
+    # no instance floor: code without such guards has no access to get wrong
+    ck.notes.setdefault('instance_floors', {})[rule] = {'found': n, 'floor': 0}
+
+
 def check(ck):
     mod = ck.repo.mod(RA)
     _part(ck, 'ra.save', d1_keys, mod)
@@ -2394,4 +3308,10 @@ def check(ck):
     _part(ck, 'striped loaders', d_striped)
     _part(ck, 'stride honoured on every path', d_stride_every_path)
     _part(ck, 'loaders read the file on every call', d_fresh_reads)
+    _part(ck, 'ra.load accepts well-formed files', d_accepts_load, mod)
+    _part(ck, 'load_npy_as_striped accepts well-formed files', d_accepts_npy)
+    _part(ck, 'shared_array_like_trj accepts mdtraj coordinates', d_accepts_shared, lo)
+    _part(ck, 'option normalisation of load_as_concatenated', d_accepts_concat, lo)
+    _part(ck, 'load_h5_as_striped per rank', d_accepts_h5)
+    _part(ck, 'accesses under hasattr / membership guards', d_guarded_access)
     return EXPLANATION
